@@ -102,6 +102,9 @@ def rule_comp(R):
                  % (arms, show(idt)), where=c.span)
     R.exact("comp/caller", ncall, 1, "call sites of the release removal")
     outq.clause_removal_index(R, "comp/removes-the-acknowledged-entry", rem, "pending_release")
+    outq.clause_removal_result(R, "comp/reports-removal", rem, "pending_release")
+    # the PUBREC that opens the release exchange finds the PUBLISH it names, also when that PUBLISH was replayed (DUP set)
+    outq.clause_removal_index(R, "rel/pubrec-finds-the-publish", outq.role_fn(f, "retained_removal"), "retained")
 
 
 def rule_order(R):
